@@ -383,6 +383,17 @@ pub fn check(args: &Args) -> Outcome {
     if rdone < nr {
         ev.inconclusive.push(format!("wall-clock watchdog: {} random sequences not generated", nr - rdone));
     }
+    // replica side in whole clusters: every GC step of E1 traces is judged with the grace counted from the virtual instant
+    // at which that (key, version, status) first appeared on the node (receipt, reset, catch-up)
+    if !args.has("--miri") {
+        let e1 = crate::e1::run_e1(args, "C06", &deadline);
+        ev.evaluations += e1.traces;
+        ev.counters.add("e1_traces", e1.traces);
+        ev.counters.add("e1_gc_passes_that_collected", e1.stats.get("gc_passes_that_collected"));
+        ev.counters.add("e1_entries_collected", e1.stats.get("entries_collected"));
+        ev.distinct.extend(e1.distinct.iter());
+        violations.extend(e1.findings);
+    }
     ev.counters.add("total_operations", total_ops);
     ev.rule = "exhaustive: every sequence of length 4 (quick) / 5 (thorough) over {set, set_with_ttl} x {a, ab, \"\"} x {x, y}, {delete, delete_after_ttl} x keys, advance grace-1ns / grace / 1ns, gc (22 operations); after every operation every read (get, contains_key, get_versioned, key_values, key_values_including_deleted, num_key_values, iter_prefix for 4 prefixes, max_version, last_gc_version) is compared with the reference model; random: sequences up to length 40 over 8 keys (incl. multi-byte), 3 values; replica side through real handshakes on a subset; distinct = distinct sequences; exhaustive:true refers to the exhaustive part".into();
     ev.assumptions = vec!["delete / delete_after_ttl on a key that is already a tombstone: the statement is silent, the model adopts the observed outcome (observation O-2)".into()];
